@@ -22,13 +22,14 @@ Import ListNotations.
 Open Scope Z_scope.
 
 (* ------------------------------------------------------------------ characters, strings *)
-Definition acode (c : ascii) : Z := Z.of_nat (nat_of_ascii c).
-Definition is_digit (c : ascii) : bool := (48 <=? acode c) && (acode c <=? 57).
+(* the byte value; via N (binary), not nat: these run under vm_compute on long texts *)
+Definition acode (c : ascii) : Z := Z.of_N (N_of_ascii c).
+Definition is_digit (c : ascii) : bool := let n := acode c in (48 <=? n) && (n <=? 57).
 Definition digit_val (c : ascii) : Z := acode c - 48.
 Definition is_alpha (c : ascii) : bool :=
   ((65 <=? acode c) && (acode c <=? 90)) || ((97 <=? acode c) && (acode c <=? 122)).
 Definition lower_c (c : ascii) : ascii :=
-  if (65 <=? acode c) && (acode c <=? 90) then ascii_of_nat (nat_of_ascii c + 32) else c.
+  if (65 <=? acode c) && (acode c <=? 90) then ascii_of_N (N_of_ascii c + 32) else c.
 Fixpoint lower_s (s : string) : string :=
   match s with EmptyString => EmptyString | String c r => String (lower_c c) (lower_s r) end.
 Definition slen (s : string) : Z := Z.of_nat (String.length s).
@@ -47,7 +48,7 @@ Fixpoint digits_val (s : string) (acc : Z) : Z :=
   match s with EmptyString => acc | String c r => digits_val r (acc * 10 + digit_val c) end.
 
 (* decimal digits of a non-negative integer (no leading zeros; "0" for 0) *)
-Definition dchar (d : Z) : ascii := ascii_of_nat (Z.to_nat (48 + d)).
+Definition dchar (d : Z) : ascii := ascii_of_N (Z.to_N (48 + d)).
 Fixpoint Z_digits_fuel (fuel : nat) (z : Z) (acc : string) : string :=
   match fuel with
   | O => acc
@@ -666,5 +667,4 @@ Definition c16_case (xb : Z) (D P J S F E : string) : string :=
    ++ " SR=" ++ show_onum (read_source ref_str_parse mS)
    ++ " DN=" ++ show_onum (to_number_str ref_str_parse (to_string_num dp x))
    ++ " JL=" ++ show_onum (json_in false jt)
-   ++ " JE=" ++ show_onum (json_in true jt)
-   ++ " RP=" ++ show_optnum (ref_str_parse D))%string.
+   ++ " JE=" ++ show_onum (json_in true jt))%string.
